@@ -633,6 +633,9 @@ func runC01(c *Ctx) {
 		c.verdict(len(bad2) == 0, "neutrino.lightHeaderCtx | records and reports the header's own height, bits and timestamp", c.P.Pos(mkFn.Pos()), "constructor stores (height, header.Bits, header.Timestamp.Unix()); accessors return them", join(bad2))
 	})
 
+	c.rule("C01.P1", "lookups by hash, by height and of the tip agree at every instant: "+readsOneSectionDoc, func() { c.readsOneSection() })
+	c.rule("C01.W2", lightCtxNodeDoc, func() { c.lightCtxNode() })
+
 	c.rule("C01.V7", "the header list answers an ancestor query only with the node of exactly that height: Node.Ancestor returns a node only on the edge where its Height equals the requested height (nil otherwise), so a validation context is never built from a nearby header", func() {
 		fn := c.fn("(*headerlist.Node).Ancestor")
 		nodeH := c.field("headerlist", "Node", "Height")
@@ -919,47 +922,66 @@ const headerSanityValidatorDoc = "checkHeaderSanity is a validator: it returns n
 
 // headerSanityValidator: see headerSanityValidatorDoc.
 func (c *Ctx) headerSanityValidator() {
-		fn := c.fn("(*neutrino.blockManager).checkHeaderSanity")
-		ctxF := c.funcObj(pBlockchain, "CheckBlockHeaderContext")
-		sanF := c.funcObj(pBlockchain, "CheckBlockHeaderSanity")
-		ctxCalls := find(fn, callTo(ctxF))
-		sanCalls := find(fn, callTo(sanF))
-		c.nilReturnsGuarded(fn, errNil("CheckBlockHeaderContext", ctxCalls, 0), 1)
-		c.nilReturnsGuarded(fn, errNil("CheckBlockHeaderSanity", sanCalls, 0), 1)
-		// argument shapes
-		hdrParam := fn.Params[1]
-		okArgs := true
-		detail := ""
-		for _, in := range append(append([]ssa.Instruction{}, ctxCalls...), sanCalls...) {
-			cc := ir.CallOf(in)
-			if cc.Args[0] != ssa.Value(hdrParam) {
-				okArgs = false
-				detail += "validator at " + c.at(in) + " is not applied to the header parameter; "
-			}
-			for i, a := range cc.Args {
-				pt := cc.Signature().Params().At(i).Type()
-				if n, ok := pt.(*types.Named); ok && n.Obj().Name() == "BehaviorFlags" {
-					if k, isC := ir.ConstInt(a); !isC || k != 0 {
-						okArgs = false
-						detail += "validator at " + c.at(in) + " is called with behaviour flags other than the zero constant BFNone (flags can disable proof-of-work checks); "
-					}
+	fn := c.fn("(*neutrino.blockManager).checkHeaderSanity")
+	ctxF := c.funcObj(pBlockchain, "CheckBlockHeaderContext")
+	sanF := c.funcObj(pBlockchain, "CheckBlockHeaderSanity")
+	ctxCalls := find(fn, callTo(ctxF))
+	sanCalls := find(fn, callTo(sanF))
+	c.nilReturnsGuarded(fn, errNil("CheckBlockHeaderContext", ctxCalls, 0), 1)
+	c.nilReturnsGuarded(fn, errNil("CheckBlockHeaderSanity", sanCalls, 0), 1)
+	// argument shapes
+	hdrParam := fn.Params[1]
+	okArgs := true
+	detail := ""
+	for _, in := range append(append([]ssa.Instruction{}, ctxCalls...), sanCalls...) {
+		cc := ir.CallOf(in)
+		if cc.Args[0] != ssa.Value(hdrParam) {
+			okArgs = false
+			detail += "validator at " + c.at(in) + " is not applied to the header parameter; "
+		}
+		for i, a := range cc.Args {
+			pt := cc.Signature().Params().At(i).Type()
+			if n, ok := pt.(*types.Named); ok && n.Obj().Name() == "BehaviorFlags" {
+				if k, isC := ir.ConstInt(a); !isC || k != 0 {
+					okArgs = false
+					detail += "validator at " + c.at(in) + " is called with behaviour flags other than the zero constant BFNone (flags can disable proof-of-work checks); "
 				}
 			}
 		}
-		powLimit := c.field(pChaincfg, "Params", "PowLimit")
-		timeSrc := c.field("neutrino", "blockManagerCfg", "TimeSource")
-		for _, in := range sanCalls {
-			cc := ir.CallOf(in)
-			if !loadsField(powLimit)(cc.Args[1]) {
-				okArgs = false
-				detail += "PowLimit argument at " + c.at(in) + " is not cfg.ChainParams.PowLimit; "
-			}
-			if !loadsField(timeSrc)(cc.Args[2]) {
-				okArgs = false
-				detail += "time source argument at " + c.at(in) + " is not cfg.TimeSource; "
-			}
+	}
+	powLimit := c.field(pChaincfg, "Params", "PowLimit")
+	timeSrc := c.field("neutrino", "blockManagerCfg", "TimeSource")
+	for _, in := range sanCalls {
+		cc := ir.CallOf(in)
+		if !loadsField(powLimit)(cc.Args[1]) {
+			okArgs = false
+			detail += "PowLimit argument at " + c.at(in) + " is not cfg.ChainParams.PowLimit; "
 		}
-		c.verdict(okArgs && len(ctxCalls) > 0 && len(sanCalls) > 0, c.nm(fn)+" | validator argument shapes", c.P.Pos(fn.Pos()),
-			"both btcd validators run on the header parameter with zero flags, cfg PowLimit and cfg TimeSource", detail,
-			c.ats(append(append([]ssa.Instruction{}, ctxCalls...), sanCalls...))...)
+		if !loadsField(timeSrc)(cc.Args[2]) {
+			okArgs = false
+			detail += "time source argument at " + c.at(in) + " is not cfg.TimeSource; "
+		}
+	}
+	c.verdict(okArgs && len(ctxCalls) > 0 && len(sanCalls) > 0, c.nm(fn)+" | validator argument shapes", c.P.Pos(fn.Pos()),
+		"both btcd validators run on the header parameter with zero flags, cfg PowLimit and cfg TimeSource", detail,
+		c.ats(append(append([]ssa.Instruction{}, ctxCalls...), sanCalls...))...)
+}
+
+const lightCtxNodeDoc = "a header is validated against the ancestors of its own branch: the list node a validation context starts its ancestor walk from (lightHeaderCtx.node) is set only by RelativeAncestorCtx, from the node the walk itself found; set from elsewhere (the tail of the main list while a side branch is being validated) it makes the median time and difficulty of a branch header come from the chain the branch is meant to displace"
+
+// lightCtxNode: see lightCtxNodeDoc (C01.W2, also C02.W2).
+func (c *Ctx) lightCtxNode() {
+	node := c.field("neutrino", "lightHeaderCtx", "node")
+	c.whoMay("stores into lightHeaderCtx.node", storeToField(node), []string{"(*neutrino.lightHeaderCtx).RelativeAncestorCtx"}, 1)
+	// ... and there it is the node the lookup returned
+	fn := c.fn("(*neutrino.lightHeaderCtx).RelativeAncestorCtx")
+	anc := c.method("headerlist", "Node", "Ancestor")
+	okv := true
+	sts := find(fn, storeToField(node))
+	for _, st := range sts {
+		if !ir.DerivesFrom(st.(*ssa.Store).Val, valIsCallTo(anc)) {
+			okv = false
+		}
+	}
+	c.verdict(okv && len(sts) >= 1, c.nm(fn)+" | the carried node is the one Ancestor returned", c.P.Pos(fn.Pos()), "ancestorCtx.node = ancestorNode", "the node carried into the ancestor's context is not the result of the Ancestor lookup", c.ats(sts)...)
 }
